@@ -320,20 +320,16 @@ Section RT2.
   Qed.
 
   (** ** `inovesa --config <saved file>` runs *)
-  Theorem reload_runs P ex cli fs dflt s ftok :
-    checker T P = true -> checker13 T W P ex = true -> checker13b P = true ->
+  Theorem reload_runs_gen P cli fs dflt s ftok oc :
+    checker T P = true ->
+    find_opt (p_cfgopt P) = Some oc -> o_cli oc = true -> w_precise W = true -> checker13b P = true ->
     parse T wf P cli fs dflt = Run s -> wf TString ftok = true ->
     exists s', reload T wf W zerotok round6 P s ftok = Run s'.
   Proof.
-    intros CK C13 C13b H Wf.
+    intros CK Fc Cc PR C13b H Wf.
     pose proof (parse_vm_ok P cli fs dflt s CK H) as OK.
     destruct (checker_facts T P CK) as (al & SH & ND & NDal & ALok & CANok & _).
     destruct (prog_shape_some _ _ SH) as [PC PF].
-    (* the checkers *)
-    unfold checker13 in C13.
-    apply andb_prop in C13 as [C13 _]. apply andb_prop in C13 as [C13 _].
-    apply andb_prop in C13 as [C13 PR]. apply andb_prop in C13 as [C13 _].
-    destruct (find_opt (p_cfgopt P)) as [oc|] eqn:Fc; [|discriminate]. rename C13 into Cc.
     unfold checker13b in C13b. rewrite Fc in C13b.
     apply andb_prop in C13b as [C13b MW]. apply andb_prop in C13b as [TS NF].
     apply cty_eqb_eq in TS. apply negb_true_iff in NF. rewrite forallb_forall in MW.
@@ -380,6 +376,18 @@ Section RT2.
         unfold dentry. destruct (find_opt (o_name o)) as [o'|]; [|reflexivity].
         destruct (in_grp true o'); [|reflexivity]. now destruct (def_of true o').
     - rewrite SB. eexists. reflexivity.
+  Qed.
+
+  Theorem reload_runs P ex cli fs dflt s ftok :
+    checker T P = true -> checker13 T W P ex = true -> checker13b P = true ->
+    parse T wf P cli fs dflt = Run s -> wf TString ftok = true ->
+    exists s', reload T wf W zerotok round6 P s ftok = Run s'.
+  Proof.
+    intros CK C13 C13b H Wf. unfold checker13 in C13.
+    apply andb_prop in C13 as [C13 _]. apply andb_prop in C13 as [C13 _].
+    apply andb_prop in C13 as [C13 PR]. apply andb_prop in C13 as [C13 _].
+    destruct (find_opt (p_cfgopt P)) as [oc|] eqn:Fc; [|discriminate].
+    exact (reload_runs_gen P cli fs dflt s ftok oc CK Fc C13 PR C13b H Wf).
   Qed.
 
   (* ---------------------------------------------------------------------------------------- *)
